@@ -147,8 +147,6 @@ macro_rules! modlist_harness {
     };
 }
 modlist_harness!(c13_t_modlist5, 5, 12);
-modlist_harness!(c13_t_modlist6, 6, 12);
-modlist_harness!(c13_t_modlist9, 9, 14);
 
 macro_rules! choice_harness {
     ($name:ident, $n:expr, $unw:expr) => {
@@ -172,7 +170,6 @@ macro_rules! choice_harness {
     };
 }
 choice_harness!(c13_t_choice5, 5, 12);
-choice_harness!(c13_t_choice7, 7, 12);
 
 /// Template harnesses: a concrete name skeleton with SYMBOLIC holes (arbitrary ASCII bytes) where the interesting
 /// decisions are made - digits of psk indices, duplicate detection across '+', the character after a pattern
@@ -216,13 +213,6 @@ macro_rules! template_harness {
     };
 }
 template_harness!(c13_t_tmpl_xx_two_psk, b"XXpsk?+psk?");
-template_harness!(c13_t_tmpl_nn_psk_digits, b"NNpsk??");
-template_harness!(c13_t_tmpl_x1x_suffix, b"X1X?");
-template_harness!(c13_t_tmpl_xk_fallback_psk, b"XKfallback+psk?");
-template_harness!(c13_t_tmpl_ik_three, b"IKpsk?+psk?+psk?");
-template_harness!(c13_t_tmpl_nk1_suffix, b"NK?psk0");
-template_harness!(c13_t_tmpl_psk3digits, b"XXpsk???");
-template_harness!(c13_t_tmpl_sep, b"XXpsk1?psk2");
 
 /// The real `NoiseParams::from_str` on whole names with symbolic holes at the separators / after the name:
 /// accepted iff the grammar accepts; the parsed value preserves the input verbatim and names the components.
@@ -258,10 +248,7 @@ macro_rules! name_harness {
         }
     };
 }
-name_harness!(c13_t_name_separators, b"Noise?XX?25519?AESGCM?SHA256");
 name_harness!(c13_t_name_trailing, b"Noise_NN_25519_AESGCM_SHA512?");
-name_harness!(c13_t_name_leading, b"?Noise_NN_448_ChaChaPoly_BLAKE2s");
-name_harness!(c13_t_name_case, b"Noise_XXpsk3_25519_ChaChaPoly_BLAKE2?");
 
 /// Modifier tokens as templates with symbolic holes: repeated / displaced prefixes, digit positions, near-misses of
 /// "fallback". Concrete skeletons keep the string searchers concrete (a fully symbolic token under a changed parser can
@@ -338,6 +325,62 @@ macro_rules! modlist_template {
     };
 }
 modlist_template!(c13_t_modlist_tmpl_aba, b"psk1+psk2+psk?");
-modlist_template!(c13_t_modlist_tmpl_ab, b"psk?+psk?");
-modlist_template!(c13_t_modlist_tmpl_fallback_mid, b"psk?+fallback+psk?");
-modlist_template!(c13_t_modlist_tmpl_sep, b"psk1?psk2");
+
+/// Whole names WITHOUT modifiers (the handshake field then never reaches the '+'-splitting machinery) and with holes
+/// that are not separators: the five-way split stays concrete, the per-field decisions are symbolic. Checks
+/// acceptance, that `name` is preserved verbatim and that the components are the named ones.
+macro_rules! plain_name_harness {
+    ($name:ident, $tmpl:expr) => {
+        #[kani::proof]
+        #[kani::unwind(40)]
+        #[kani::stub(core::slice::memchr::memchr, naive_memchr)]
+        pub fn $name() {
+            const T: &[u8] = $tmpl;
+            let mut b = [0u8; T.len()];
+            let mut i = 0;
+            while i < T.len() {
+                b[i] = if T[i] == b'?' { hole() } else { T[i] };
+                if T[i] == b'?' {
+                    kani::assume(b[i] != b'_' && b[i] != b'+');
+                }
+                i += 1;
+            }
+            check_name(&b);
+        }
+    };
+}
+plain_name_harness!(c13_t_plain_name_hash, b"Noise_NN_25519_AESGCM_SHA25?");
+
+/// List-level logic (duplicates at non-adjacent positions, '+' structure) cannot be decided with symbolic bytes
+/// (see above: minutes to out-of-memory). These are CONCRETE list shapes run through the real parser and the
+/// reference recogniser inside one query with no symbolic variable - a regression-style complement, not part of the
+/// bounded "for all strings up to N bytes" claim.
+#[kani::proof]
+#[kani::unwind(19)]
+#[kani::stub(core::slice::memchr::memchr, naive_memchr)]
+pub fn c13_t_modlist_concrete_shapes() {
+    const SHAPES: [&[u8]; 8] = [
+        b"psk1+psk2+psk1",
+        b"psk1+fallback+psk1",
+        b"psk0+psk2+psk3",
+        b"fallback+psk1",
+        b"psk1+psk1",
+        b"psk1++psk2",
+        b"+psk1",
+        b"psk1+",
+    ];
+    let mut k = 0;
+    while k < 8 {
+        let b = SHAPES[k];
+        let s = unsafe { core::str::from_utf8_unchecked(b) };
+        let r: Result<HandshakeModifierList, Error> = s.parse();
+        let want = grammar::modifiers(b);
+        assert!(r.is_ok() == want.is_some(), "C13: modifier list (concrete shape) accepted iff the grammar accepts it");
+        assert!(r.is_ok() || is_pattern_err(&r), "C13: rejection must be a pattern error");
+        if let (Ok(l), Some((w, n))) = (&r, &want) {
+            assert!(same_mods(&l.list, w, *n), "C13: parsed modifiers differ from the named ones");
+        }
+        k += 1;
+    }
+    kani::cover!(true, "C13 concrete list shapes reached");
+}
